@@ -2059,6 +2059,7 @@ package xpath
 //@   ensures[tier@C10] tPath(result)
 //@   ensures[axis@C10,C14] is(result, *axisNode) && as(result, *axisNode).AxisType == axeTyp && as(result, *axisNode).Input == n
 //@   ensures[name-test@C10,C14] old(p.r.typ) == itemStar ==> as(result, *axisNode).typeTest == matchType && as(result, *axisNode).LocalName == "" && as(result, *axisNode).Prefix == ""
+//@   ensures[qualified-name-test@C14] old(p.r.typ) == itemName && !(old(p.r.canBeFunc) && nodeTypeNameAt(old(p.r.name), old(p.r.prefix))) ==> as(result, *axisNode).typeTest == matchType && as(result, *axisNode).Prefix == old(p.r.prefix) && as(result, *axisNode).LocalName == ite(old(p.r.name) == "*", "", old(p.r.name))
 //@   ensures[nonempty@C17] old(p.r.typ) != itemEOF
 //@   requires[swf@C17] swf(p.r)
 //@   ensures[swf@C17] swf(p.r)
@@ -2236,6 +2237,7 @@ package xpath
 // Termination of the compile phase (C06: no hang). smeas: the characters the scanner has not consumed
 // yet (plus one for a pending look-ahead character); pmeas: the same plus one for a pending token.
 // Every scanner loop decreases smeas, every parser loop decreases pmeas.
+//@ define nodeTypeNameAt(name, prefix) = (name == "node" || name == "text" || name == "processing-instruction" || name == "comment") && prefix == ""
 //@ define nodeTypeName(r) = (r.name == "node" || r.name == "text" || r.name == "processing-instruction" || r.name == "comment") && r.prefix == ""
 //@ define primaryTok(r) = r.typ == itemString || r.typ == itemNumber || r.typ == itemDollar || r.typ == itemLParens || r.typ == itemName && r.canBeFunc && !nodeTypeName(r)
 //@ define smeas(s) = (len(s.text) - s.pos) + ite(s.curr != 0, 1, 0)
@@ -2246,7 +2248,7 @@ package xpath
 // C14: node tests. nodetype_/nav_local/nav_prefix/nav_nsurl are what the client's navigator
 // reports at a position (assumed deterministic functions of the position).
 //@ define typeOK(r, p) = r.typeTest == nodetype_(p) || r.typeTest == allNode
-//@ define nameOK(r, n, p) = ite(hasMethod(n, "NamespaceURL") && r.hasNamespaceURI, r.LocalName == nav_local(p) && r.namespaceURI == nav_nsurl(p), r.LocalName == nav_local(p) && r.Prefix == nav_prefix(p))
+//@ define nameOK(r, n, p) = (r.LocalName == "" || r.LocalName == nav_local(p)) && ite(hasMethod(n, "NamespaceURL") && r.hasNamespaceURI, r.namespaceURI == nav_nsurl(p), r.Prefix == nav_prefix(p))     // an empty local name is the wildcard of prefix:*
 //@ define qname(p) = ite(nav_prefix(p) == "", nav_local(p), nav_prefix(p) + ":" + nav_local(p))
 //@ func (*parser).parseNodeTest$1
 //@   props C14
